@@ -8,7 +8,7 @@
 import ast
 from fractions import Fraction
 
-from vh.translate import TranslateError, _parse, coq_string
+from vh.translate import TranslateError, _module_assign, _parse, coq_string
 
 
 def _find_func(tree, name, rel):
@@ -141,4 +141,234 @@ def item_applycal_channel_map(repo, out):
     out.append('Definition applycal_expand_bound : bool := %s.' % ('true' if bound else 'false'))
 
 
-ITEMS = [item_applycal_kernels, item_applycal_channel_map]
+def _calls(fn, func_name):
+    return [n for n in ast.walk(fn) if isinstance(n, ast.Call) and _norm(n.func) == func_name]
+
+
+def _enclosing_loops(fn):
+    """{id(node): [enclosing For nodes, outermost first]} for every node of fn."""
+    out = {}
+
+    def walk(node, loops):
+        out[id(node)] = loops
+        inner = loops + [node] if isinstance(node, ast.For) else loops
+        for child in ast.iter_child_nodes(node):
+            walk(child, inner)
+    walk(fn, [])
+    return out
+
+
+def item_applycal_solutions(repo, out):
+    """How the three correction calculators treat invalid / zero / infinite SOLUTIONS (fail-closed)."""
+    rel = 'katdal/applycal.py'
+    tree = _parse(repo, rel)
+    # INVALID_GAIN = np.complex64(complex(np.nan, np.nan))
+    if _norm(_module_assign(tree, 'INVALID_GAIN', rel)) != 'np.complex64(complex(np.nan,np.nan))':
+        raise TranslateError('%s: INVALID_GAIN is not np.complex64(complex(np.nan, np.nan))' % rel)
+    # ---- calc_gain_correction
+    fn = _find_func(tree, 'calc_gain_correction', rel)
+    rets = [n for n in ast.walk(fn) if isinstance(n, ast.Return)]
+    if sorted(_norm(r.value) for r in rets) != sorted(['np.full((len(dumps),1),INVALID_GAIN)',
+                                                       'np.reciprocal(smooth_gains)']):
+        raise TranslateError('%s: calc_gain_correction does not return np.reciprocal(smooth_gains) / an INVALID_GAIN '
+                             'array when there are no solutions: %s' % (rel, [_norm(r.value) for r in rets]))
+    want = {'smooth_gains': 'np.full((len(dumps),gains.shape[0]),INVALID_GAIN)',
+            'valid': 'np.isfinite(gains_per_chan)&on_target[events]',
+            'on_target': 'targets==target',
+            'smooth_gains[on_target,chan]': 'complex_interp(dumps[on_target],events[valid],gains_per_chan[valid])'}
+    got = {_norm(n.targets[0]): _norm(n.value) for n in ast.walk(fn) if isinstance(n, ast.Assign)}
+    for k, v in want.items():
+        if got.get(k) != v:
+            raise TranslateError('%s: calc_gain_correction: %s = %s (expected %s)' % (rel, k, got.get(k), v))
+    ifs = [n for n in ast.walk(fn) if isinstance(n, ast.If)]
+    tests = sorted(_norm(n.test) for n in ifs)
+    if tests != sorted(['valueisINVALID_GAIN', 'notevents', 'targetsisNone', 'valid.any()']):
+        raise TranslateError('%s: calc_gain_correction guards are %s' % (rel, tests))
+    for n in ifs:
+        if _norm(n.test) == 'valueisINVALID_GAIN' and not (len(n.body) == 1 and isinstance(n.body[0], ast.Continue)):
+            raise TranslateError('%s: calc_gain_correction does not skip the INVALID_GAIN placeholder' % rel)
+        if _norm(n.test) == 'valid.any()' and (n.orelse or len(n.body) != 1):
+            raise TranslateError('%s: calc_gain_correction: unexpected valid.any() branch' % rel)
+    # ---- calc_bandpass_correction
+    fn = _find_func(tree, 'calc_bandpass_correction', rel)
+    got = [(_norm(n.targets[0]), _norm(n.value)) for n in ast.walk(fn) if isinstance(n, ast.Assign)]
+    if ('valid', 'np.isfinite(bp)') not in got or ('bp', 'np.full(len(data_freqs),INVALID_GAIN)') not in got:
+        raise TranslateError('%s: calc_bandpass_correction: valid / all-invalid assignments are %s' % (rel, got))
+    ci = _calls(fn, 'complex_interp')
+    if len(ci) != 1 or [_norm(a) for a in ci[0].args] != ['data_freqs', 'cal_freqs[valid]', 'bp[valid]']:
+        raise TranslateError('%s: calc_bandpass_correction: complex_interp call not of the expected shape' % rel)
+    kw = {k.arg: _norm(k.value) for k in ci[0].keywords}
+    if kw == {'left': 'INVALID_GAIN', 'right': 'INVALID_GAIN'}:
+        edges = True
+    elif kw == {} or kw == {'left': 'None', 'right': 'None'}:
+        edges = False
+    else:
+        raise TranslateError('%s: calc_bandpass_correction: complex_interp edges are %s' % (rel, kw))
+    ifs = [n for n in ast.walk(fn) if isinstance(n, ast.If)]
+    if len(ifs) != 1 or _norm(ifs[0].test) != 'valid.any()' or len(ifs[0].body) != 1 or len(ifs[0].orelse) != 1:
+        raise TranslateError('%s: calc_bandpass_correction: guard is not `if valid.any(): ... else: ...`' % rel)
+    app = [n for n in ast.walk(fn) if isinstance(n, ast.Call) and _norm(n.func) == 'corrections.append']
+    if len(app) != 1 or _norm(app[0].args[0]) != 'ComparableArrayWrapper(np.reciprocal(bp))':
+        raise TranslateError('%s: calc_bandpass_correction does not append np.reciprocal(bp): %s'
+                             % (rel, [_norm(a) for a in app]))
+    # ---- calc_delay_correction
+    fn = _find_func(tree, 'calc_delay_correction', rel)
+    got = [_norm(n.value) for n in ast.walk(fn) if isinstance(n, ast.Assign)]
+    if got[:2] != ['[np.nan_to_num(value[index])forsegm,valueinsensor.segments()]',
+                   "[np.exp(-2j*np.pi*d*data_freqs).astype('complex64')fordindelays]"]:
+        raise TranslateError('%s: calc_delay_correction not nan_to_num + exp(-2j pi d f): %s' % (rel, got))
+    # ---- complex_interp: np.interp on magnitude and unwrapped phase with the optional edge values
+    fn = _find_func(tree, 'complex_interp', rel)
+    got = {_norm(n.targets[0]): _norm(n.value) for n in ast.walk(fn) if isinstance(n, ast.Assign)
+           and len(n.targets) == 1}
+    want = {'mag_i': 'np.abs(yi)', 'phase_i': 'np.unwrap(np.angle(yi))',
+            'mag': 'np.interp(x,xi,mag_i,left=mag_left,right=mag_right)',
+            'phase': 'np.interp(x,xi,phase_i,left=phase_left,right=phase_right)',
+            'mag_left': 'np.abs(left)', 'mag_right': 'np.abs(right)'}
+    for k, v in want.items():
+        if got.get(k) != v:
+            raise TranslateError('%s: complex_interp: %s = %s (expected %s)' % (rel, k, got.get(k), v))
+    out.append('(* katdal/applycal.py: calc_gain_correction / calc_bandpass_correction / calc_delay_correction *)')
+    out.append('Definition applycal_recip_plain : bool := true.')
+    out.append('Definition applycal_bandpass_edges_invalid : bool := %s.' % ('true' if edges else 'false'))
+
+
+def item_applycal_product_loop(repo, out):
+    """calc_correction: what happens to a requested product that lacks a correction sensor for some input."""
+    rel = 'katdal/applycal.py'
+    tree = _parse(repo, rel)
+    fn = _find_func(tree, 'calc_correction', rel)
+    loops = _enclosing_loops(fn)
+    outer = [n for n in ast.walk(fn) if isinstance(n, ast.For) and _norm(n.iter) == 'cal_products'
+             and _norm(n.target) == 'cal_product']
+    if len(outer) != 1 or outer[0].orelse:
+        raise TranslateError('%s: calc_correction: expected one `for cal_product in cal_products` loop' % rel)
+    outer = outer[0]
+    handlers = [n for n in ast.walk(outer) if isinstance(n, ast.ExceptHandler)]
+    if len(handlers) != 1 or _norm(handlers[0].type) != 'KeyError':
+        raise TranslateError('%s: calc_correction: expected one `except KeyError` in the product loop' % rel)
+    h = handlers[0]
+    if not (len(h.body) == 1 and isinstance(h.body[0], ast.If) and _norm(h.body[0].test) == 'skip_missing_products'
+            and len(h.body[0].body) == 1 and len(h.body[0].orelse) == 1
+            and isinstance(h.body[0].orelse[0], ast.Raise) and h.body[0].orelse[0].exc is None):
+        raise TranslateError('%s: calc_correction: KeyError handler is not `if skip_missing_products: ... else: raise`'
+                             % rel)
+    act = h.body[0].body[0]
+    tries = [n for n in ast.walk(outer) if isinstance(n, ast.Try) and h in n.handlers]
+    body = [_norm(s) for s in tries[0].body]
+    if not any('cache.get(sensor_prefix+inp)' in b for b in body):
+        raise TranslateError('%s: calc_correction: the guarded statement is not cache.get(sensor_prefix + inp)' % rel)
+    # where is corrections[cal_product] assigned, and which loop does the action leave?
+    assigns = [n for n in ast.walk(outer) if isinstance(n, ast.Assign)
+               and _norm(n.targets[0]) == 'corrections[cal_product]']
+    if len(assigns) != 1:
+        raise TranslateError('%s: calc_correction: corrections[cal_product] assigned %d times' % (rel, len(assigns)))
+    mine = loops[id(act)]
+    if isinstance(act, ast.Break):
+        left = mine[-1]
+    elif isinstance(act, ast.Continue):
+        left = None
+        if mine[-1] is not outer:
+            raise TranslateError('%s: calc_correction: `continue` on a missing sensor is not in the product loop' % rel)
+    else:
+        raise TranslateError('%s: calc_correction: action on a missing sensor is %s' % (rel, _norm(act)))
+    if left is None:
+        # `continue` in the product loop itself: the rest of the product's body must come after the try
+        skips = True
+    elif left is outer:
+        skips = False                                    # leaves the loop over the products: later products dropped
+    else:
+        # leaves an inner loop: that loop must be the per-input loop whose `else:` registers the product
+        if not (left in outer.body and _norm(left.iter) in ('enumerate(inputs)', 'inputs')
+                and any(a in list(ast.walk(ast.Module(body=left.orelse, type_ignores=[]))) for a in assigns)):
+            raise TranslateError('%s: calc_correction: `break` on a missing sensor leaves an unexpected loop' % rel)
+        skips = True
+    if not isinstance(fn.args.defaults[-1], ast.Constant) or fn.args.defaults[-1].value is not False \
+            or fn.args.args[-1].arg != 'skip_missing_products':
+        raise TranslateError('%s: calc_correction: skip_missing_products does not default to False' % rel)
+    out.append('(* katdal/applycal.py calc_correction: a product lacking a sensor is skipped (true) / ends the loop *)')
+    out.append('Definition applycal_missing_skips_product : bool := %s.' % ('true' if skips else 'false'))
+
+
+def item_applycal_wiring(repo, out):
+    """The glue between the modelled pieces (fail-closed): the per-input product loop and g1*conj(g2) call in
+    calc_correction_per_corrprod, the per-dump loop of _correction_block, how calc_correction numbers the inputs,
+    and how VisibilityDataV4 wires the three kernels onto vis / flags / weights."""
+    rel = 'katdal/applycal.py'
+    tree = _parse(repo, rel)
+    fn = _find_func(tree, 'calc_correction_per_corrprod', rel)
+    body = [_norm(x) for x in fn.body if not (isinstance(x, ast.Expr) and isinstance(x.value, ast.Constant))]
+    want = ['n_channels=channels.stop-channels.start',
+            "g_per_input=np.ones((len(params.inputs),n_channels),dtype='complex64')",
+            'forcal_product,product_correctionsinparams.corrections.items():channel_map=params.channel_maps[cal_product]'
+            'foriinrange(len(params.inputs)):sensor=product_corrections[i]g_per_channel=sensor[dump]'
+            'g_per_input[i]*=channel_map(g_per_channel,channels)',
+            'g_per_input=np.ascontiguousarray(g_per_input.T)',
+            "g_per_cp=np.empty((n_channels,len(params.input1_index)),dtype='complex64')",
+            '_correction_inputs_to_corrprods(g_per_cp,g_per_input,params.input1_index,params.input2_index)',
+            'returng_per_cp']
+    if body != want:
+        raise TranslateError('%s: calc_correction_per_corrprod body not of the expected shape: %s' % (rel, body))
+    fn = _find_func(tree, '_correction_block', rel)
+    body = [_norm(x) for x in fn.body if not (isinstance(x, ast.Expr) and isinstance(x.value, ast.Constant))]
+    want = ["slices=tuple((slice(*loc)forlocinblock_info[None]['array-location']))",
+            "block_shape=block_info[None]['chunk-shape']",
+            'correction=np.empty(block_shape,np.complex64)',
+            'forn,dumpinenumerate(range(slices[0].start,slices[0].stop)):'
+            'correction[n]=calc_correction_per_corrprod(dump,slices[1],params)',
+            'returncorrection']
+    if body != want:
+        raise TranslateError('%s: _correction_block body not of the expected shape: %s' % (rel, body))
+    fn = _find_func(tree, 'calc_correction', rel)
+    got = {_norm(n.targets[0]): _norm(n.value) for n in ast.walk(fn) if isinstance(n, ast.Assign)
+           and len(n.targets) == 1}
+    want = {'inputs': 'sorted(set(np.ravel(corrprods)))',
+            'input1_index': 'np.array([inputs.index(cp[0])forcpincorrprods])',
+            'input2_index': 'np.array([inputs.index(cp[1])forcpincorrprods])',
+            'params': 'CorrectionParams(inputs,input1_index,input2_index,corrections,channel_maps)',
+            'final_cal_products': 'list(corrections.keys())',
+            'cal_stream_freqs': 'all_cal_freqs[cal_stream]',
+            'sensor_prefix': "f'Calibration/Corrections/{cal_stream}/{product_type}/'"}
+    for k, v in want.items():
+        if got.get(k) != v:
+            raise TranslateError('%s: calc_correction: %s = %s (expected %s)' % (rel, k, got.get(k), v))
+    mb = _calls(fn, 'da.map_blocks')
+    if len(mb) != 1 or _norm(mb[0].args[0]) != '_correction_block' or \
+            {k.arg: _norm(k.value) for k in mb[0].keywords} != {'dtype': 'np.complex64', 'chunks': 'chunks',
+                                                               'name': 'name', 'params': 'params'}:
+        raise TranslateError('%s: calc_correction: da.map_blocks call not of the expected shape' % rel)
+    # ---- visdatav4: kernels onto vis / flags / weights
+    rel = 'katdal/visdatav4.py'
+    tree = _parse(repo, rel)
+    cls = [n for n in tree.body if isinstance(n, ast.ClassDef) and n.name == 'VisibilityDataV4']
+    if len(cls) != 1:
+        raise TranslateError('%s: class VisibilityDataV4 not found' % rel)
+    mc = [n for n in cls[0].body if isinstance(n, ast.FunctionDef) and n.name == '_make_corrected']
+    if len(mc) != 1 or [_norm(x) for x in mc[0].body] != \
+            ['returnda.core.elemwise(apply_correction,data,self._corrections,dtype=data.dtype)']:
+        raise TranslateError('%s: _make_corrected is not elemwise(apply_correction, data, self._corrections)' % rel)
+    init = [n for n in cls[0].body if isinstance(n, ast.FunctionDef) and n.name == '__init__'][0]
+    got = {_norm(n.targets[0]): _norm(n.value) for n in ast.walk(init) if isinstance(n, ast.Assign)
+           and len(n.targets) == 1}
+    want = {'corrected_vis': 'self._make_corrected(apply_vis_correction,self.source.data.vis)',
+            'corrected_flags': 'self._make_corrected(apply_flags_correction,self.source.data.flags)',
+            'corrected_weights': 'self._make_corrected(apply_weights_correction,self.source.data.weights)',
+            'freqs': 'self.spectral_windows[0].channel_freqs',
+            'corrprods': 'self.subarrays[self.subarray].corr_products',
+            '(self.applycal_products,self._corrections)':
+                'calc_correction(self.source.data.vis.chunks,self.sensor,corrprods,normalised_cal_products,freqs,'
+                'cal_freqs,skip_missing_products)',
+            '(normalised_cal_products,skip_missing_products)': '_normalise_cal_products(applycal,cal_freqs.keys())'}
+    for k, v in want.items():
+        if got.get(k) != v:
+            raise TranslateError('%s: VisibilityDataV4.__init__: %s = %s (expected %s)' % (rel, k, got.get(k), v))
+    vfw = [n for n in ast.walk(init) if isinstance(n, ast.Assign) and _norm(n.targets[0]) == 'self._corrected'
+           and isinstance(n.value, ast.Call) and _norm(n.value.func) == 'VisFlagsWeights']
+    if len(vfw) != 1 or [_norm(a) for a in vfw[0].value.args] != \
+            ['corrected_vis', 'corrected_flags', 'corrected_weights', 'unscaled_weights']:
+        raise TranslateError('%s: corrected VisFlagsWeights not (vis, flags, weights, unscaled_weights)' % rel)
+    out.append('Definition applycal_wiring_checked : bool := true.')
+
+
+ITEMS = [item_applycal_kernels, item_applycal_channel_map, item_applycal_solutions, item_applycal_product_loop,
+         item_applycal_wiring]
